@@ -702,6 +702,19 @@ def find_function(toks: List[Tok], name: str):
     return None
 
 
+def top_function_names(toks: List[Tok]) -> List[str]:
+    """names of the functions declared at nesting depth 0 (`function name(`), in source order"""
+    out, depth = [], 0
+    for i, t in enumerate(toks):
+        if t.kind == 'p' and t.val in ('{', '(', '['):
+            depth += 1
+        elif t.kind == 'p' and t.val in ('}', ')', ']'):
+            depth -= 1
+        elif depth == 0 and t.kind == 'kw' and t.val == 'function' and i + 1 < len(toks) and toks[i + 1].kind == 'id':
+            out.append(toks[i + 1].val)
+    return out
+
+
 def find_top_const(toks: List[Tok], name: str):
     depth = 0
     for i, t in enumerate(toks):
